@@ -35,13 +35,20 @@ def confirm(d):
     subprocess.run(["git", "-C", "/repo", "worktree", "add", "--detach", wt, "HEAD", "-q"], check=True)
     res = {"dir": d}
     try:
+        placed = []
         for dm in demos:
-            src = os.path.join(d, os.path.basename(dm["file"]))
-            dst = os.path.join(wt, dm["place_at"])
-            if os.path.isdir(dst) or dm["place_at"].endswith("/"):
-                dst = os.path.join(dst, os.path.basename(src))
-            os.makedirs(os.path.dirname(dst), exist_ok=True)
-            shutil.copy(src, dst)
+            place = dm["place_at"].split()[0].rstrip(",;")      # authors append remarks after the path
+            files = [dm["file"]] if isinstance(dm["file"], str) else list(dm["file"])
+            for f in files:
+                src = os.path.join(d, os.path.basename(f.split()[0]))
+                dst = os.path.join(wt, place)
+                if os.path.isdir(dst) or place.endswith("/") or not place.endswith(".go"):
+                    dst = os.path.join(dst, os.path.basename(src))
+                elif len(files) > 1:
+                    dst = os.path.join(os.path.dirname(dst), os.path.basename(src))
+                os.makedirs(os.path.dirname(dst), exist_ok=True)
+                shutil.copy(src, dst)
+                placed.append(dst)
         run = demos[0]["run"]
         run = re.sub(r"^cd \S+ && ", "", run)
         rc0, out0 = sh(run + " -count=1" if "go test" in run and "-count" not in run else run, wt)
@@ -51,10 +58,7 @@ def confirm(d):
         rc1, out1 = sh(run + " -count=1" if "go test" in run and "-count" not in run else run, wt)
         res["demo_with_patch"] = {"rc": rc1, "tail": out1[-600:]}
         # existing tests of touched packages (demo files removed first)
-        for dm in demos:
-            dst = os.path.join(wt, dm["place_at"])
-            if os.path.isdir(dst) or dm["place_at"].endswith("/"):
-                dst = os.path.join(dst, os.path.basename(dm["file"]))
+        for dst in placed:
             if os.path.exists(dst):
                 os.remove(dst)
         _, files = sh("git diff --name-only", wt)
@@ -72,7 +76,9 @@ def confirm(d):
                     break
         flaky_only = bool(fails) and set(fails) <= {"TestRuntimeStability_SlowRefreshHandler"}
         res["existing_tests"] = {"pkgs": pkgs, "rc": rc2, "failed": fails, "tail": out2[-500:]}
-        res["confirmed"] = bool(rc0 == 0 and res["patch_applies"] and rc1 != 0 and (rc2 == 0 or flaky_only))
+        ran = "no tests to run" not in out0 and "no test files" not in out0
+        res["demo_ran"] = ran
+        res["confirmed"] = bool(ran and rc0 == 0 and res["patch_applies"] and rc1 != 0 and (rc2 == 0 or flaky_only))
     finally:
         subprocess.run(["git", "-C", "/repo", "worktree", "remove", "--force", wt])
     json.dump(res, open(os.path.join(d, "confirm.json"), "w"), indent=1)
